@@ -17,7 +17,7 @@ var pureLib = map[string]bool{
 	"fmt.Sprintf": true, "fmt.Sprint": true, "fmt.Println": true, "fmt.Printf": true, "fmt.Sprintln": true,
 	"encoding/hex.EncodeToString": true,
 	"strconv.Itoa":                true,
-	"(net.IP).String": true, "(net/netip.Addr).String": true, "(net/netip.AddrPort).String": true,
+	"(net/netip.Addr).String": true, "(net/netip.AddrPort).String": true,
 	"net.JoinHostPort": true, "net.SplitHostPort": true,
 	"math/rand.Uint32": true, "math/rand/v2.Uint32": true,
 	"(time.Duration).String": true, "golang.org/x/net/bpf.Assemble": true,
